@@ -92,7 +92,9 @@ enum Spec {
     /// 5/6/7 the shell exits at once and a descendant that inherited stdout (5) / stderr (6) / both (7)
     /// writes `err` `late_ms` milliseconds later (well over a second: the waiter must still join the pumps),
     /// 8 like 0 with an immediate cancel, but driven on a current-thread runtime: POST /tasks and POST cancel
-    /// complete before the spawned run_task is polled for the first time (cancel before it subscribes)
+    /// complete before the spawned run_task is polled for the first time (cancel before it subscribes),
+    /// 9 Command::spawn fails (PATH without bash), 10 the artifacts dir cannot be created (`.rip` is a file;
+    /// a world of its own)
     Task { variant: u64, out: Segs, err: Segs, cap: u64, plimit: u64, exit: u64, cancel_after_ms: Option<u64>, page: u64, late_ms: u64 },
     /// a real foreground `bash` tool run; late_ms > 0: the shell exits at once and a descendant that holds
     /// both pipes writes `err` to stderr `late_ms` later (the tool's captures run to EOF)
@@ -194,6 +196,7 @@ fn reader(chunks: Vec<Vec<u8>>) -> Box<dyn AsyncRead + Unpin + Send> {
 struct Obs {
     enc: Vec<u64>,
     fails: Vec<(String, String)>, // (what, class)
+    enc_note: Option<String>,     // a label for the run's distribution
 }
 impl Obs {
     fn fail(&mut self, class: &str, what: String) {
@@ -839,8 +842,13 @@ async fn run_task(w: &mut World, spec: &Spec) -> (Obs, Vec<u64>) {
         1 => json!({"tool": "python", "args": {"command": command}}),
         2 => json!({"tool": "bash", "args": {"command": 17}}),
         3 => json!({"tool": "bash", "args": {"command": command, "cwd": "/", "artifact_max_bytes": cap, "max_bytes": plimit}}),
+        9 => json!({"tool": "bash", "args": {"command": command, "cwd": ".", "env": {"PATH": "/nonexistent-c17"}, "artifact_max_bytes": cap, "max_bytes": plimit}}),
         _ => json!({"tool": "bash", "args": {"command": command, "cwd": ".", "artifact_max_bytes": cap, "max_bytes": plimit}}),
     };
+    if variant == 10 {
+        let _ = std::fs::remove_dir_all(w.ws.join(".rip"));
+        std::fs::write(w.ws.join(".rip"), b"not a directory").unwrap();
+    }
     let (st, created) = call_json(&w.app, req("POST", "/tasks", Some(body))).await;
     let id = created.get("task_id").and_then(|x| x.as_str()).unwrap_or("").to_string();
     if id.is_empty() {
@@ -912,6 +920,10 @@ async fn run_task(w: &mut World, spec: &Spec) -> (Obs, Vec<u64>) {
     if variant != 0 && variant != 4 && variant != 8 && !late {
         if codes.last() != Some(&24) {
             o.fail("failure_not_reported_failed", format!("{codes:?}"));
+        }
+        // which refusal path of run_task / run_pipes_task this was (for the distribution only)
+        if let Some(e) = frames.last().and_then(|f| f.get("error")).and_then(|e| e.as_str()) {
+            o.enc_note = Some(format!("refusal={}", e.split(|c: char| c == ':' || c == '(').next().unwrap_or("").trim()));
         }
         return (o, codes);
     }
@@ -1195,6 +1207,8 @@ fn gen_real(r: &mut Rng) -> Spec {
             1 => 2,
             2 => 3,
             3 | 4 => 4,
+            5 => 9,
+            6 => 10,
             _ => 0,
         };
         let out = gen_content(r, &[plimit.min(200), cap.min(200), 20], true);
@@ -1284,7 +1298,7 @@ fn main() {
     let mut started: std::collections::HashMap<usize, tokio::task::JoinHandle<(Obs, Vec<u64>)>> = Default::default();
     let mut started_bash: std::collections::HashMap<usize, tokio::task::JoinHandle<(Obs, Vec<(Spec, Vec<u64>)>)>> = Default::default();
     for (i, s) in all.iter().enumerate() {
-        if let Spec::Task { variant: 5..=7, .. } = s {
+        if let Spec::Task { variant: 5..=7 | 10, .. } = s {
             let sp = s.clone();
             started.insert(i, rt.spawn(async move {
                 let mut wd = World::new();
@@ -1329,7 +1343,12 @@ fn main() {
                 }
                 if let Some(h) = started.remove(&i) {
                     match rt.block_on(h) {
-                        Ok((o, codes)) => Ok(res_codes_case(o, codes, *variant)),
+                        Ok((o, codes)) => {
+                            if let Some(n) = &o.enc_note {
+                                res.bump(n);
+                            }
+                            Ok(res_codes_case(o, codes, *variant))
+                        }
                         Err(e) => Err(Box::new(e.to_string()) as Box<dyn std::any::Any + Send>),
                     }
                 } else if let Some(h) = threads.remove(&i) {
@@ -1349,6 +1368,12 @@ fn main() {
                         let (o, codes) = rt.block_on(run_task(wd, s));
                         res_codes_case(o, codes, *variant)
                     }))
+                    .map(|(o, c)| {
+                        if let Some(n) = &o.enc_note {
+                            res.bump(n);
+                        }
+                        (o, c)
+                    })
                 }
             }
             Spec::Bash { late_ms: 1.., .. } if started_bash.contains_key(&i) => {
